@@ -94,7 +94,7 @@ Qed.
 
 Lemma wt_field_built Sc st regs G n adds fargs f ov :
   Forall2 (entry_ok Sc st) regs G -> Forall2 (targ_rel regs) adds fargs ->
-  wt_field G n adds f ov -> field_built n Sc st fargs f ov.
+  wt_field Sc G n adds f ov -> field_built n Sc st fargs f ov.
 Proof.
   intros HE HR Hw.
   assert (Habs : forall id, (forall a, In a adds -> targ_id a <> id) -> forall a, In a fargs -> farg_id a <> id).
@@ -108,7 +108,8 @@ Proof.
     rewrite Hreg in Hreg'. injection Hreg' as <-. exists x. split; [exact Hfa|]. split; [exact Hx|].
     eapply valid_mono; try exact Hv; auto using mext_refl, Z.divide_refl; try lia; apply lvl_pos. }
   inversion Hw as [Hno Hno1 Hreq | size al bytes Hk Hin | r v k Hk Hin Hl Hkn | es al mc r elems k Hk Hin Hl Hkn Hmc
-                   | r v k Hk Hin Hl Hkn | t r v k Hk Hin Hl Hkn | t r v k Hk Hin Hl Hkn]; subst ov.
+                   | r v k Hk Hin Hl Hkn | t r v k Hk Hin Hl Hkn | t r v k Hk Hin Hl Hkn
+                   | u code r mem v k Hk Hcode Hint Hin Hmem Hl Hkn | u Hk Hint Hno Hreq]; subst ov.
   - apply FB_absent; [apply Habs, Hno | | exact Hreq].
     destruct (fk f); try exact I; apply Habs, Hno1.
   - destruct (rel_in_l _ _ _ _ HR Hin) as (fa & Hfa & Hrel).
@@ -119,16 +120,26 @@ Proof.
   - destruct (Hoff _ _ _ Hin Hl Hkn) as (x & Hx & Hr & Hv). eapply FB_strvec; eauto.
   - destruct (Hoff _ _ _ Hin Hl Hkn) as (x & Hx & Hr & Hv). eapply FB_table; eauto.
   - destruct (Hoff _ _ _ Hin Hl Hkn) as (x & Hx & Hr & Hv). eapply FB_tabvec; eauto.
+  - destruct (Hoff _ _ _ Hin Hl Hkn) as (x & Hx & Hr & Hv). cbn [en_ty en_val] in Hv.
+    destruct (rel_in_l _ _ _ _ HR Hint) as (fa & Hfa & Hrel).
+    destruct fa as [i' s' a' b'|]; cbn in Hrel; [|contradiction]. destruct Hrel as (<- & <- & <- & <-).
+    eapply FB_union; eauto.
+  - destruct (rel_in_l _ _ _ _ HR Hint) as (fa & Hfa & Hrel).
+    destruct fa as [i' s' a' b'|]; cbn in Hrel; [|contradiction]. destruct Hrel as (<- & <- & <- & <-).
+    eapply FB_union_none; eauto.
 Qed.
 
 Lemma wt_fields_built Sc st regs G n adds fargs flds fs :
   Forall2 (entry_ok Sc st) regs G -> Forall2 (targ_rel regs) adds fargs ->
-  wt_fields G n adds flds fs -> fields_built n Sc st fargs flds fs.
+  wt_fields Sc G n adds flds fs -> fields_built n Sc st fargs flds fs.
 Proof.
   intros HE HR. induction 1; [constructor | apply FBS_absent | apply FBS_present]; auto; eapply wt_field_built; eauto.
 Qed.
 
 (* ------------------------------------------------------------------ one command *)
+Lemma Forall2_len {A B} (P : A -> B -> Prop) l1 l2 : Forall2 P l1 l2 -> length l1 = length l2.
+Proof. induction 1; cbn; congruence. Qed.
+
 Lemma Forall2_snoc {A B} (P : A -> B -> Prop) l1 l2 a b : Forall2 P l1 l2 -> P a b -> Forall2 P (l1 ++ [a]) (l2 ++ [b]).
 Proof. intros H Hab. apply Forall2_app; [exact H | constructor; [exact Hab | constructor]]. Qed.
 
@@ -174,7 +185,7 @@ Proof.
     destruct (regs_get regs rs) as [refs|] eqn:Eg; [|discriminate].
     destruct (create_offset_vector st refs) as [[[ref e] st1]|] eqn:Ec; [|discriminate]. cbn [one] in E. injection E as <- <- <-. rename st1 into st'.
     assert (Hch : Forall2 (fun r v => e_start st <= r < 0 /\ valid n Sc st (lvl_align st) ety r v) refs vs).
-    { clear Ec. revert refs Eg. induction Hrs as [|r v rs' vs' (k & Hl & Hk) Hrs IH]; intros refs Eg; cbn [regs_get] in Eg.
+    { clear Ec Hwt. revert refs Eg. induction Hrs as [|r v rs' vs' (k & Hl & Hk) Hrs IH]; intros refs Eg; cbn [regs_get] in Eg.
       - injection Eg as <-. constructor.
       - destruct (reg regs r) as [x|] eqn:Er; [|discriminate]. destruct (regs_get regs rs') as [l|] eqn:El; [|discriminate].
         injection Eg as <-. constructor; [|apply IH; reflexivity].
@@ -190,11 +201,279 @@ Proof.
     assert (Hwf : Forall farg_wf fargs).
     { rewrite Forall_forall. intros fa Hin. destruct (rel_in_r _ _ _ _ HR Hin) as (ta & Hta & Hrel).
       rewrite Forall_forall in Hw. exact (rel_wf _ _ _ Hrel (Hw _ Hta)). }
-    assert (Hlen' : Z.of_nat (length fargs) <= 32765) by (rewrite <- (Forall2_length HR); exact Hlen).
+    assert (Hlen' : Z.of_nat (length fargs) <= 32765) by (rewrite <- (Forall2_len _ _ _ HR); exact Hlen).
     assert (Hfit' : table_fits fargs) by (unfold table_fits; rewrite (place_end_rel regs adds fargs 0 HR); exact Hfit).
     pose proof (wt_fields_built Sc st regs G n adds fargs flds fs He HR Hfs) as Hfb.
     destruct (build_table_valid n Sc st fargs t flds fs ref ems st' Hok Hma Hc Hwf Hlen' Hfit' Hfl Hfb Ec Hsm)
       as (Hst & Hc' & Hs & Hlt & _ & Hv).
     split; [|exact Hst]. apply (inv_extend Sc st st' regs G ref _ _ _ HI Hst); [exact Hc' | lia | exact Hv].
+Qed.
+
+
+(* ------------------------------------------------------------------ the emitted byte count only grows *)
+Definition sz (st : est) : Z := lenZ (front st) + lenZ (back st).
+
+Lemma sz_emit_front st b r e st' : emit_front st b = Some (r, e, st') -> sz st <= sz st'.
+Proof.
+  unfold emit_front. destruct (_ || _ || _); [discriminate|]. intros H. injection H as _ _ <-.
+  unfold sz. cbn [set_emit_front front back]. rewrite lenZ_app. pose proof (lenZ_nonneg b). lia.
+Qed.
+Lemma sz_emit_back st b r e st' : emit_back st b = Some (r, e, st') -> sz st <= sz st'.
+Proof.
+  unfold emit_back. destruct (_ || _); [discriminate|]. intros H. injection H as _ _ <-.
+  unfold sz. cbn [set_emit_back front back]. rewrite lenZ_app. pose proof (lenZ_nonneg b). lia.
+Qed.
+Lemma sz_set_min_align st a : sz (set_min_align st a) = sz st.
+Proof. unfold sz. destruct (set_min_align_fields st a) as (_ & _ & -> & -> & _). reflexivity. Qed.
+
+Lemma sz_create_string st s r e st' : create_string st s = Some (r, e, st') -> sz st <= sz st'.
+Proof. unfold create_string. destruct (_ <? _); [discriminate|]. apply sz_emit_front. Qed.
+Lemma sz_create_struct st d a r e st' : create_struct st d a = Some (r, e, st') -> sz st <= sz st'.
+Proof. unfold create_struct. intros H. apply sz_emit_front in H. rewrite sz_set_min_align in H. exact H. Qed.
+Lemma sz_create_vector st d c es a mc r e st' : create_vector st d c es a mc = Some (r, e, st') -> sz st <= sz st'.
+Proof. unfold create_vector. destruct (_ <? _); [discriminate|]. intros H. apply sz_emit_front in H. rewrite sz_set_min_align in H. exact H. Qed.
+Lemma sz_create_offset_vector st refs r e st' : create_offset_vector st refs = Some (r, e, st') -> sz st <= sz st'.
+Proof. unfold create_offset_vector. destruct (_ <? _); [discriminate|]. intros H. apply sz_emit_front in H. rewrite sz_set_min_align in H. exact H. Qed.
+Lemma sz_create_union_vector st ts rs a b es st' : create_union_vector st ts rs = Some (a, b, es, st') -> sz st <= sz st'.
+Proof.
+  unfold create_union_vector. destruct (create_offset_vector st rs) as [[[v e1] st1]|] eqn:E1; [|discriminate].
+  destruct (create_vector st1 ts _ 1 1 _) as [[[t e2] st2]|] eqn:E2; [|discriminate]. intros H. injection H as _ _ _ <-.
+  apply sz_create_offset_vector in E1. apply sz_create_vector in E2. lia.
+Qed.
+Lemma sz_create_vtable st vt r e st' : create_vtable st vt = Some (r, e, st') -> sz st <= sz st'.
+Proof.
+  unfold create_vtable. destruct (_ && _); [apply sz_emit_back|].
+  destruct (emit_front st _) as [[[r0 e0] st0]|] eqn:E; [|discriminate]. intros H. injection H as _ _ <-. apply sz_emit_front in E. exact E.
+Qed.
+Lemma sz_cached_vtable st vt r es st' : create_cached_vtable st vt = Some (r, es, st') -> sz st <= sz st'.
+Proof.
+  unfold create_cached_vtable. destruct (vcache_find _ _ _); [intros H; injection H as _ _ <-; lia|].
+  destruct (create_vtable st vt) as [[[r0 e0] st0]|] eqn:E; [|discriminate]. intros H. injection H as _ _ <-.
+  apply sz_create_vtable in E. exact E.
+Qed.
+Lemma sz_create_table st p s a v r e st' : create_table st p s a v = Some (r, e, st') -> sz st <= sz st'.
+Proof. unfold create_table. destruct (negb _); [discriminate|]. intros H. apply sz_emit_front in H. rewrite sz_set_min_align in H. exact H. Qed.
+Lemma sz_build_table st adds r es st' : build_table st adds = Some (r, es, st') -> sz st <= sz st'.
+Proof.
+  unfold build_table. destruct (has_dup _); [discriminate|]. destruct (place adds 0) as [pl s].
+  destruct (create_cached_vtable st _) as [[[v es1] st1]|] eqn:E1; [|discriminate].
+  destruct (create_table st1 _ _ _ _) as [[[r0 e0] st2]|] eqn:E2; [|discriminate]. intros H. injection H as _ _ <-.
+  apply sz_cached_vtable in E1. apply sz_create_table in E2. lia.
+Qed.
+Lemma sz_align_buffer_end st a b n al es st' : align_buffer_end st a b n = Some (al, es, st') -> sz st <= sz st'.
+Proof.
+  unfold align_buffer_end. destruct n; [intros H; injection H as _ _ <-; lia|].
+  destruct (_ =? 0); [intros H; injection H as _ _ <-; lia|].
+  destruct (emit_back st _) as [[[r0 e0] st0]|] eqn:E; [|discriminate]. intros H. injection H as _ _ <-. apply sz_emit_back in E. exact E.
+Qed.
+Lemma sz_create_buffer st id b root a fl r es st' : create_buffer st id b root a fl = Some (r, es, st') -> sz st <= sz st'.
+Proof.
+  unfold create_buffer. destruct (align_buffer_end st a b _) as [[[al es0] st1]|] eqn:E1; [|discriminate].
+  destruct (emit_front _ _) as [[[r0 e0] st2]|] eqn:E2; [|discriminate]. intros H. injection H as _ _ <-.
+  apply sz_align_buffer_end in E1. apply sz_emit_front in E2. rewrite sz_set_min_align in E2. lia.
+Qed.
+Lemma sz_embed_buffer st b d a fl r es st' : embed_buffer st b d a fl = Some (r, es, st') -> sz st <= sz st'.
+Proof.
+  unfold embed_buffer. destruct (align_buffer_end st a b _) as [[[al es0] st1]|] eqn:E1; [|discriminate].
+  destruct (emit_front _ _) as [[[r0 e0] st2]|] eqn:E2; [|discriminate]. intros H. injection H as _ _ <-.
+  apply sz_align_buffer_end in E1. apply sz_emit_front in E2. lia.
+Qed.
+Lemma sz_end_buffer st root r es st' : end_buffer st root = Some (r, es, st') -> sz st <= sz st'.
+Proof.
+  unfold end_buffer. destruct (frames st) as [|fr rest]; [discriminate|].
+  destruct (create_buffer _ _ _ _ _ _) as [[[r0 es0] st2]|] eqn:E; [|discriminate]. intros H. injection H as _ _ <-.
+  apply sz_create_buffer in E. rewrite sz_set_min_align in E. exact E.
+Qed.
+
+Lemma sz_run_cmd st regs c new es st' : run_cmd st regs c = Some (new, es, st') -> sz st <= sz st'.
+Proof.
+  destruct c; cbn [run_cmd]; intros H.
+  - destruct (create_string st s) as [[[r e] s1]|] eqn:E; [|discriminate]. injection H as _ _ <-. eapply sz_create_string; eauto.
+  - destruct (create_vector _ _ _ _ _ _) as [[[r e] s1]|] eqn:E; [|discriminate]. injection H as _ _ <-. eapply sz_create_vector; eauto.
+  - destruct (create_struct _ _ _) as [[[r e] s1]|] eqn:E; [|discriminate]. injection H as _ _ <-. eapply sz_create_struct; eauto.
+  - destruct (regs_get regs rs); [|discriminate].
+    destruct (create_offset_vector _ _) as [[[r e] s1]|] eqn:E; [|discriminate]. injection H as _ _ <-. eapply sz_create_offset_vector; eauto.
+  - destruct (uelems_get regs elems) as [[ts rs]|]; [|discriminate].
+    destruct (create_union_vector _ _ _) as [[[[a b] e] s1]|] eqn:E; [|discriminate]. injection H as _ _ <-. eapply sz_create_union_vector; eauto.
+  - destruct (targs_get regs adds); [|discriminate].
+    destruct (build_table _ _) as [[[r e] s1]|] eqn:E; [|discriminate]. injection H as _ _ <-. eapply sz_build_table; eauto.
+  - injection H as _ _ <-. unfold sz. reflexivity.
+  - destruct (reg regs root); [|discriminate].
+    destruct (end_buffer _ _) as [[[r e] s1]|] eqn:E; [|discriminate]. injection H as _ _ <-. eapply sz_end_buffer; eauto.
+  - destruct (reg regs root); [|discriminate].
+    destruct (create_buffer _ _ _ _ _ _) as [[[r e] s1]|] eqn:E; [|discriminate]. injection H as _ _ <-. eapply sz_create_buffer; eauto.
+  - destruct (embed_buffer _ _ _ _ _) as [[[r e] s1]|] eqn:E; [|discriminate]. injection H as _ _ <-. eapply sz_embed_buffer; eauto.
+  - injection H as _ _ <-. unfold sz. reflexivity.
+Qed.
+
+Lemma sz_run : forall sc st regs regs' es st', run st regs sc = Some (regs', es, st') -> sz st <= sz st'.
+Proof.
+  induction sc as [|c r IH]; intros st regs regs' es st' H; cbn [run] in H.
+  - injection H as _ _ <-. lia.
+  - destruct (run_cmd st regs c) as [[[new es1] st1]|] eqn:E1; [|discriminate].
+    destruct (run st1 (regs ++ new) r) as [[[regs2 es2] st2]|] eqn:E2; [|discriminate]. injection H as _ _ <-.
+    apply sz_run_cmd in E1. apply IH in E2. lia.
+Qed.
+
+(* ------------------------------------------------------------------ command lists *)
+Lemma run_cmds_inv Sc : forall cmds G G' st regs regs' ems st',
+  wt_cmds Sc G cmds G' -> Inv Sc st regs G -> run st regs cmds = Some (regs', ems, st') -> small st' ->
+  Inv Sc st' regs' G' /\ step st st'.
+Proof.
+  induction cmds as [|c r IH]; intros G G' st regs regs' ems st' Hwt HI E Hsm; inversion Hwt as [|? ? G1 ? ? Hc Hr]; subst; cbn [run] in E.
+  - injection E as <- <- <-. split; [exact HI | apply step_refl; [exact (i_ok _ _ _ _ HI) | exact (i_ma _ _ _ _ HI)]].
+  - destruct (run_cmd st regs c) as [[[new es1] st1]|] eqn:E1; [|discriminate].
+    destruct (run st1 (regs ++ new) r) as [[[regs2 es2] st2]|] eqn:E2; [|discriminate]. injection E as <- <- <-.
+    assert (Hsm1 : small st1) by (pose proof (sz_run _ _ _ _ _ _ E2); unfold small, sz in *; lia).
+    destruct (run_cmd_inv Sc G c G1 st regs new es1 st1 Hc HI E1 Hsm1) as [HI1 Hst1].
+    destruct (IH G1 G' st1 (regs ++ new) regs2 es2 st2 Hr HI1 E2 Hsm) as [HI2 Hst2].
+    split; [exact HI2 | exact (step_trans _ _ _ Hst1 Hst2)].
+Qed.
+
+Lemma run_app : forall a b st regs regs' es st',
+  run st regs (a ++ b) = Some (regs', es, st') ->
+  exists regs1 es1 st1 es2, run st regs a = Some (regs1, es1, st1) /\ run st1 regs1 b = Some (regs', es2, st') /\ es = es1 ++ es2.
+Proof.
+  induction a as [|c r IH]; intros b st regs regs' es st' H.
+  - cbn [app] in H. exists regs, [], st, es. split; [reflexivity|]. split; [exact H | reflexivity].
+  - cbn [app run] in H. destruct (run_cmd st regs c) as [[[new e1] s1]|] eqn:E1; [|discriminate].
+    destruct (run s1 (regs ++ new) (r ++ b)) as [[[regs2 e2] s2]|] eqn:E2; [|discriminate]. injection H as <- <- <-.
+    destruct (IH _ _ _ _ _ _ E2) as (regs1 & es1 & st1 & es2 & Ha & Hb & He).
+    exists regs1, (e1 ++ es1), st1, es2. cbn [run]. rewrite E1, Ha. split; [reflexivity|]. split; [exact Hb|].
+    rewrite He, app_assoc. reflexivity.
+Qed.
+
+Lemma valid_same n Sc st st' M ty r v :
+  vmem st = vmem st' -> e_start st = e_start st' -> valid n Sc st M ty r v -> valid n Sc st' M ty r v.
+Proof.
+  intros Hm He Hv o ds [Ho Hd]. rewrite <- Hm. apply Hv. split; [lia | exact Hd].
+Qed.
+
+Lemma set_min_align_0 st : 0 <= min_align st -> set_min_align st 0 = st.
+Proof. intros H. unfold set_min_align. replace (min_align st <? 0) with false by lia. reflexivity. Qed.
+
+Lemma ma_ok_nonneg st : ma_ok st -> 0 <= min_align st.
+Proof. intros [->|H]; [lia | pose proof (pow2_pos _ H); lia]. Qed.
+
+Lemma land_flags fl : 0 <= fl -> Z.land (Z.lor (Z.land fl 2) 0) 1 = 0 /\ Z.land (Z.lor (Z.land fl 2) 0) 2 = Z.land fl 2.
+Proof.
+  intros H. rewrite Z.lor_0_r. split.
+  - rewrite <- Z.land_assoc. change (Z.land 2 1) with 0. apply Z.land_0_r.
+  - rewrite <- Z.land_assoc. change (Z.land 2 2) with 2. reflexivity.
+Qed.
+
+(* ------------------------------------------------------------------ the whole build *)
+Theorem build_decodes Sc sc R v ws n regs ems st :
+  wt_script Sc sc R v ws n -> run init_state [] sc = Some (regs, ems, st) -> small st ->
+  (forall ds0, Forall (fun d => d mod buffer_alignment st = 0) ds0 ->
+     decode_mem n Sc R ws ds0 (mem_of_list (buffer_bytes st)) (lenZ (buffer_bytes st)) = Some v) /\
+  pow2 (buffer_alignment st) /\ 4 <= buffer_alignment st.
+Proof.
+  intros Hwt E Hsm.
+  inversion Hwt as [cl ba0 id0 pre id ba fl body r R' v' n' G1 G2 Hba0 Hpre Hbody Hroot Hba Hid Hfl]; subst.
+  cbn [run run_cmd] in E. cbn [app] in E.
+  set (st0 := with_settings init_state cl ba0 id0) in E.
+  destruct (run st0 [] (pre ++ CStartBuffer id ba fl :: body ++ [CEndBuffer r])) as [[[regs' es'] st']|] eqn:E0; [|discriminate].
+  injection E as <- <- <-.
+  assert (HI0 : Inv Sc st0 [] []).
+  { constructor; cbn.
+    - repeat split; cbn; lia.
+    - left. reflexivity.
+    - split; [reflexivity | intros ? ? ? []].
+    - constructor.
+    - reflexivity.
+    - exact Hba0. }
+  destruct (run_app _ _ _ _ _ _ _ E0) as (regs1 & es1 & st1 & es2 & Ea & Eb & _).
+  assert (Hsm1 : small st1) by (pose proof (sz_run _ _ _ _ _ _ Eb); unfold small, sz in *; lia).
+  destruct (run_cmds_inv Sc pre [] G1 st0 [] regs1 es1 st1 Hpre HI0 Ea Hsm1) as [HI1 Hst1].
+  cbn [run run_cmd] in Eb.
+  set (st2 := start_buffer st1 id ba fl) in Eb.
+  destruct (run st2 (regs1 ++ []) (body ++ [CEndBuffer r])) as [[[regs2 es3] st3']|] eqn:Ec; [|discriminate].
+  injection Eb as <- _ <-. rewrite app_nil_r in Ec.
+  destruct (run_app _ _ _ _ _ _ _ Ec) as (regs3 & es4 & st3 & es5 & Ed & Ee & _).
+  assert (Hnc1 : nest_count st1 = 0) by (destruct (s_ctl _ _ Hst1) as (_ & -> & _); reflexivity).
+  pose proof HI1 as [Hok1 Hma1 Hc1 He1 Ht1 Hb1].
+  assert (Hm2 : min_align st2 = if min_align st1 =? 0 then 1 else min_align st1).
+  { subst st2. unfold start_buffer. cbn [with_buffer_frame min_align]. unfold is_top_buffer. rewrite Ht1. cbn. reflexivity. }
+  assert (Hlvl2 : lvl_align st2 = lvl_align st1).
+  { unfold lvl_align. rewrite Hm2. destruct (min_align st1 =? 0) eqn:X; [|reflexivity]. apply Z.eqb_eq in X. rewrite X. reflexivity. }
+  assert (HI2 : Inv Sc st2 regs1 G1).
+  { constructor.
+    - exact Hok1.
+    - unfold ma_ok. rewrite Hm2. destruct (min_align st1 =? 0); [right; apply pow2_1 | exact Hma1].
+    - exact Hc1.
+    - eapply Forall2_imp; [|exact He1]. intros x e. destruct e as [en|]; [|auto]. cbn. intros [Hx Hv]. split; [exact Hx|].
+      rewrite Hlvl2. eapply valid_same; [| |exact Hv]; reflexivity.
+    - subst st2. cbn. exact Hnc1.
+    - subst st2. cbn. exact Hba. }
+  assert (Hsm3 : small st3) by (pose proof (sz_run _ _ _ _ _ _ Ee); unfold small, sz in *; lia).
+  destruct (run_cmds_inv Sc body G1 G2 st2 regs1 regs3 es4 st3 Hbody HI2 Ed Hsm3) as [HI3 Hst3].
+  cbn [run run_cmd] in Ee.
+  destruct (lookup_ok Sc st3 regs3 G2 r _ (i_ents _ _ _ _ HI3) Hroot) as (x & Hreg & Hx & Hv). cbn [en_ty en_val en_depth] in Hv.
+  rewrite Hreg in Ee.
+  destruct (end_buffer st3 x) as [[[ref es6] st4]|] eqn:Ef; [|discriminate]. cbn [many] in Ee. injection Ee as _ _ <-.
+  pose proof HI3 as [Hok3 Hma3 Hc3 He3 Ht3 Hb3].
+  destruct (s_ctl _ _ Hst3) as (Hnid & Hnc & Hmk & Hidn & Hbal & Hbf & Hcl & Hfr).
+  unfold end_buffer in Ef. rewrite Hfr in Ef. subst st2. cbn [start_buffer with_buffer_frame frames] in Ef.
+  unfold is_top_buffer in Ef. rewrite Ht3 in Ef. cbn [Z.eqb] in Ef.
+  cbn [start_buffer with_buffer_frame block_align buffer_flags ident] in Hbal, Hbf, Hidn.
+  assert (Hmin3 : 1 <= min_align st3).
+  { pose proof (s_min _ _ Hst3) as Hle. rewrite Hm2 in Hle. pose proof (ma_ok_nonneg _ Hma1). destruct (min_align st1 =? 0) eqn:X; lia. }
+  assert (Hst4 : step st3 (set_min_align st3 (block_align st3)) /\ 1 <= min_align (set_min_align st3 (block_align st3))).
+  { rewrite Hbal. destruct Hba as [->|Hpb].
+    - rewrite set_min_align_0 by lia. split; [apply step_refl; assumption | exact Hmin3].
+    - pose proof (step_set_min_align st3 ba Hok3 Hma3 Hpb) as Hs. split; [exact Hs | pose proof (s_min _ _ Hs); lia]. }
+  destruct Hst4 as [Hst4 Hmin4].
+  remember (set_min_align st3 (block_align st3)) as st3b eqn:Est3b.
+  assert (Hctl4 : same_ctl st3 st3b) by exact (s_ctl _ _ Hst4).
+  destruct Hctl4 as (Hnid4 & _ & _ & Hidn4 & Hbal4 & Hbf4 & _).
+  destruct (create_buffer st3b (ident st3b) (block_align st3b) x (min_align st3b) _) as [[[ref5 es7] st5]|] eqn:Eg; [|discriminate].
+  injection Ef as _ _ <-.
+  assert (Hpm : pow2 (min_align st3b)) by (destruct (s_ma _ _ Hst4) as [X|X]; [lia | exact X]).
+  assert (Hc3b : cache_ok st3b).
+  { subst st3b. destruct (set_min_align_fields st3 (block_align st3)) as (_ & Hee & _ & _ & Hcc & _). eapply cache_ok_step; eauto. }
+  assert (Hu16 : u16 fl = fl) by (apply u16_id; exact Hfl).
+  rewrite Hbf, Hu16 in Eg.
+  destruct (land_flags fl ltac:(lia)) as [Hl1 Hl2].
+  assert (Hx' : e_start st3b <= x < 0) by (pose proof (s_start _ _ Hst4); lia).
+  assert (Hsm5 : small st5) by (unfold small in *; exact Hsm).
+  destruct (create_buffer_top n Sc st3b (ident st3b) (block_align st3b) x (min_align st3b) _ R v ref5 es7 st5
+              (s_ok _ _ Hst4) (s_ma _ _ Hst4) Hc3b Hpm ltac:(lia)
+              ltac:(rewrite Hbal4, Hbal; exact Hba) ltac:(rewrite Hbal4, Hbal; exact Hba)
+              ltac:(rewrite Hidn4, Hidn; exact Hid) Hl1 Hx'
+              (step_valid _ _ _ _ _ _ _ Hma3 Hst4 Hv) Eg Hsm5)
+    as (Hok5 & Hs5 & Hp5 & H45 & Hle5 & Hrm5 & Hdec & _).
+  (* the restored frame does not lower the alignment *)
+  assert (Hfm : min_align st1 <= min_align st5).
+  { pose proof (s_min _ _ Hst3) as A. pose proof (s_min _ _ Hst4) as B. rewrite Hm2 in A.
+    destruct (min_align st1 =? 0) eqn:X; lia. }
+  unfold buffer_alignment, buffer_bytes in *. cbn [with_buffer_frame min_align front back f_min_align].
+  replace (min_align st5 <? min_align st1) with false by lia.
+  split; [|split; [exact Hp5 | exact H45]].
+  intros ds0 Hds0. rewrite <- Hl2. apply Hdec. exact Hds0.
+Qed.
+
+(* ------------------------------------------------------------------ the statements of C02 / C03 *)
+Corollary build_decode Sc sc R v ws n regs ems st :
+  wt_script Sc sc R v ws n -> run init_state [] sc = Some (regs, ems, st) -> small st ->
+  decode_root n Sc R ws (buffer_bytes st) = Some v.
+Proof.
+  intros Hwt E Hsm. destruct (build_decodes Sc sc R v ws n regs ems st Hwt E Hsm) as [H _].
+  unfold decode_root. apply H. constructor.
+Qed.
+
+Corollary build_wf Sc sc R v ws n regs ems st :
+  wt_script Sc sc R v ws n -> run init_state [] sc = Some (regs, ems, st) -> small st ->
+  wf n Sc R ws (buffer_bytes st) = true /\
+  wf_aligned n Sc R ws (buffer_alignment st) (buffer_bytes st) = true /\
+  pow2 (buffer_alignment st) /\ 4 <= buffer_alignment st.
+Proof.
+  intros Hwt E Hsm. destruct (build_decodes Sc sc R v ws n regs ems st Hwt E Hsm) as (H & Hp & H4).
+  pose proof (H [] (Forall_nil _)) as H0. unfold lenZ in H0.
+  assert (HA : Forall (fun d => d mod buffer_alignment st = 0) [buffer_alignment st]).
+  { constructor; [|constructor]. apply Z.mod_same. pose proof (pow2_pos _ Hp). lia. }
+  pose proof (H _ HA) as H1. unfold lenZ in H1.
+  split; [unfold wf, decode_root; rewrite H0; reflexivity|].
+  split; [unfold wf_aligned; rewrite H1; reflexivity | auto].
 Qed.
 
